@@ -51,7 +51,10 @@ func devKeyFor(ind *reg.Indicator, cfg reg.Cfg, w int, inA, outA, inB, outB [][]
 // comparison between computed quantities.
 var discontinuous = map[string]bool{"volume.Mfi": true, "volume.Obv": true, "volume.Nvi": true, "trend.Aroon": true, "volatility.SuperTrend": true}
 
-var scalePairs = [][2]int{{-4, 2}, {2, 10}, {10, -4}, {2, 0}, {0, 2}}
+// (log2 price factor, log2 volume factor): small and large currency units
+// (a token quoted in BTC, a price in the smallest coin) and volume units
+// (fractional coin volumes, volumes in millions of shares).
+var scalePairs = [][2]int{{-4, 2}, {2, 10}, {10, -4}, {2, 0}, {0, 2}, {-38, -30}, {40, 30}, {0, -30}}
 
 func c18Indicator(cc *run.Case, ind *reg.Indicator, cfg reg.Cfg, class string, n int) {
 	bars := gen.Bars(cc.R, class, n)
